@@ -699,9 +699,9 @@ COMMANDS = (
         Command('chassis power reset',
                 lambda i, a: i.chassis_control_hard_reset()),
         Command('chassis power diag',
-                lambda i, a: i.chassis_control_power_diagnostic_interrupt()),
+                lambda i, a: i.chassis_control_diagnostic_interrupt()),
         Command('chassis power soft',
-                lambda i, a: i.chassis_control_power_soft_shutdown()),
+                lambda i, a: i.chassis_control_soft_shutdown()),
 )
 
 COMMAND_HELP = (
